@@ -369,10 +369,19 @@ func hostileStreamN(ch *Choices) ([]byte, string, int) {
 			declared = 1 << uint(ch.Range(24, 30, "longlist.exp"))
 		}
 		typed := ch.Intn(2, "longlist.typed") == 1
+		tname := "[int32"
 		if typed {
+			if ch.Intn(3, "longlist.anytype") == 1 {
+				// any name the type map knows: a class, a named map type, a named slice type, a list of structs
+				keys := sortedTypeKeys()
+				tname = keys[ch.Intn(len(keys), "longlist.type")]
+				if ch.Intn(3, "longlist.few") != 0 {
+					n = ch.Range(0, 3, "longlist.fewn") // the declared length is all there is
+				}
+			}
 			b.WriteByte('V')
-			b.WriteByte(6)
-			b.WriteString("[int32")
+			b.WriteByte(byte(len(tname)))
+			b.WriteString(tname)
 		} else {
 			b.WriteByte(0x58)
 		}
@@ -380,7 +389,7 @@ func hostileStreamN(ch *Choices) ([]byte, string, int) {
 		for i := 0; i < n; i++ {
 			b.WriteByte(byte(0x90 + i%40))
 		}
-		return b.Bytes(), fmt.Sprintf("fixed-length list (typed=%v) declaring %d elements with %d really present", typed, declared, n), 1
+		return b.Bytes(), fmt.Sprintf("fixed-length list (typed=%v, type %q) declaring %d elements with %d really present", typed, tname, declared, n), 1
 	case 6, 7:
 		// containers that contain themselves and references of the wrong type: a Bag whose untyped list
 		// field holds (a reference to) itself, and whose other fields are references to drawn ordinals
